@@ -68,6 +68,15 @@ tr_opt_nonempty on a subscript); `map(F, L)` (F a lambda or rendered by the spec
 rendering marked Call.exhausts (str.join), or pure where the map object is certainly consumed once (_lazy_map_ok).
 A primitive on a HIDDEN state (_hidden_state, e.g. the number of warnings emitted: warnings.warn) may be called inside an expression
 (StM prelude entries, rendered by swrap) and inside a comprehension, whose elements are then produced on the threaded state (tr_mapS).
+`self.attr[k] = v` on a state attribute holding an opaque object ("<T>.__setitem__"); `a, b = <list>` (ValueError unless the list has
+exactly that many elements); a read of a @property of the object's class (Module.properties: the call of the getter); keyword
+arguments of a method call on a typed receiver, `recv.m(a, name=b)` (Call.kw, entry 0 = the receiver; parameter order).
+`try: x = E  except K: H  [else: L]` in any mode (_try_assign: the body is ONE assignment of an expression to a local; kinds by
+CATCHES + Module.catches); `<int> * <str>` (tr_repeat); `k in o` on an opaque object ("<T>.__contains__"); a comprehension over an
+opaque object ("<T>.__iter__"); `[]` where an opaque type of dynamic values is expected (Module.coercions ("nil", T, "C"));
+Fun.calls: renderings that hold in one function only; Fun.forwards_varargs: `*args, **kwargs` that are only handed on to one callee
+rendered as a primitive on the object's state (_forwards_only); in the iterable of a for loop, `X.attr` rendered by Module.consts does
+not count as a use of X.
 """
 import ast
 import os
@@ -234,6 +243,10 @@ class Module:
     # coercions: [(from type, to type, "Coq template with one %s")] injections applied where a value of the first type
     # is used at the second (dynamic values: str -> a sum type); ("none", T, "C") renders None at T by the constant C
     coercions = ()
+    # properties: {"self.<name>": "Cls.<name>"} — an attribute that is a @property of the object's class (the decorator
+    # is checked in the source): a read `self.<name>` is the call of the getter, rendered through `calls` under the key
+    # "Cls.<name>" (no arguments; typically the translated getter with the object's state passed by name).
+    properties = {}
 
     def __init__(self, name, rel, funs, calls=None, imports=(), regexes=(), consts=None):
         self.name, self.rel, self.funs = name, rel, list(funs)
@@ -347,6 +360,12 @@ def wrap(pre, body):
 
 class FunTr:
     def __init__(self, mod, fun, node):
+        if getattr(fun, "calls", None):
+            # Fun.calls (opt-in, set after construction): renderings that hold in THIS function only, over the module's
+            # (`self.m(..)` / `self.attr` name different methods in different classes of one module)
+            import copy
+            mod = copy.copy(mod)
+            mod.calls = dict(mod.calls, **fun.calls)
         self.mod, self.fun, self.node = mod, fun, node
         self.defs = []
         self.nloop = 0
@@ -567,6 +586,15 @@ class FunTr:
             if self.mod.attr_hooks.get(key, (None, None))[0] and isinstance(n.ctx, ast.Load):
                 # an attribute served by __getattr__ (Module.attr_hooks): the read IS the call <getter>("<name>")
                 return self._call(self._hook_call(self.mod.attr_hooks[key][0], n, []), env, want)
+            if key in getattr(self.mod, "properties", {}) and isinstance(n.ctx, ast.Load):
+                # a @property of the object's class (Module.properties): the read IS the call of the getter, no arguments
+                qual = self.mod.properties[key]
+                if not any(isinstance(d_, ast.Name) and d_.id == "property" for d_ in find_def(self.mod.tree_, qual).decorator_list):
+                    _bad("%s is not decorated with @property in the source" % qual, n)
+                getter = ast.Call(func=ast.parse(qual, mode="eval").body, args=[], keywords=[])
+                for m_ in ast.walk(getter):
+                    ast.copy_location(m_, n)
+                return self._call(getter, env, want)
             # field read on a typed receiver: spec key "<type>.@field" -> a one-argument getter
             try:
                 recv = self.expr(n.value, env)
@@ -587,6 +615,10 @@ class FunTr:
             return E(sum((e.pre for e in es), []), "(" + ", ".join(texts) + ")", ("tuple",) + tuple(tys))
         if isinstance(n, ast.List):
             if not n.elts:
+                if isinstance(want, tuple) and want[0] == "coq" \
+                        and any(f_ == "nil" and same_repr(want, t_) for f_, t_, _ in _COERCIONS):
+                    # the empty list where an opaque type of dynamic values is expected: Module.coercions ("nil", T, "C")
+                    return E([], coerce("[]", "nil", want, n), want)
                 if want is not None:
                     return E([], "[]", want)
                 return E([], "[]", "nil")
@@ -694,6 +726,12 @@ class FunTr:
                 it = self.pure(ast.copy_location(ast.ListComp(elt=g.iter.elt, generators=g.iter.generators), g.iter), env)
             else:
                 it = self.expr(g.iter, env)
+            if isinstance(it.ty, tuple) and it.ty[0] == "coq":
+                # a comprehension over an opaque object: the spec's "<type>.__iter__" (pure, a list), as in a for statement
+                gi = self.mod.calls.get("<%s>.__iter__" % it.ty[1])
+                if isinstance(gi, Call) and len(gi.args) == 1 and not gi.monadic and not gi.mutates \
+                        and isinstance(gi.ret, tuple) and gi.ret[0] == "list":
+                    it = E(it.pre, "(%s %s)" % (gi.coq, coerce(it.text, it.ty, gi.args[0], n)), gi.ret)
             ety = self._elem_ty(it.ty, g.iter)
             env2 = dict(env)
             env2[g.target.id] = ety
@@ -747,6 +785,10 @@ class FunTr:
         _bad("cannot iterate over %r" % (t,), node)
 
     @staticmethod
+    def _pure_contains(g):
+        return len(g.args) == 2 and not g.monadic and not g.mutates and g.ret == "bool"
+
+    @staticmethod
     def _by_literal_key(g, key_node):
         """`o[k]` / `o[k] = v` on an opaque object whose spec entry is a LIST of renderings, one per asserted key
         (second parameter of type ("literal", <source text of the key>, …), e.g. a dict with a fixed set of str keys
@@ -791,6 +833,10 @@ class FunTr:
                 t = self.tmp()
                 f = "tr_floordiv" if isinstance(n.op, ast.FloorDiv) else "tr_mod"
                 return E(pre + [(t, "%s %s %s" % (f, a.text, b.text))], t, "Z")
+        if isinstance(n.op, ast.Mult) and sorted([str(a.ty), str(b.ty)]) == ["Z", "str"]:
+            # <int> * <str> / <str> * <int>: repetition; a count <= 0 gives '' (tr_repeat)
+            s_, k_ = (a, b) if a.ty == "str" else (b, a)
+            return E(pre, "(tr_repeat %s %s)" % (s_.text, k_.text), "str")
         if isinstance(n.op, ast.Add) and a.ty != "Z":
             if same_repr(a.ty, b.ty) and (a.ty in ("str", "strbuf") or a.ty[0] == "list"):
                 return E(pre, "(%s ++ %s)" % (a.text, b.text), a.ty)
@@ -870,6 +916,12 @@ class FunTr:
                 elif a.ty == "str" and isinstance(b.ty, tuple) and b.ty[0] == "dict" and len(b.ty) == 3 and b.ty[1] == "str":
                     # k in d for a dict with str keys (association list): is there an entry under k
                     txt = "(tr_is_some (tr_dict_get %s %s))" % (b.text, a.text)
+                elif isinstance(b.ty, tuple) and b.ty[0] == "coq" \
+                        and isinstance(self.mod.calls.get("<%s>.__contains__" % b.ty[1]), Call) \
+                        and self._pure_contains(self.mod.calls["<%s>.__contains__" % b.ty[1]]):
+                    # k in o on an opaque object: the spec's primitive "<type>.__contains__" (object, key: pure, a bool)
+                    g = self.mod.calls["<%s>.__contains__" % b.ty[1]]
+                    txt = "(%s %s %s)" % (g.coq, coerce(b.text, b.ty, g.args[0], n), coerce(a.text, a.ty, g.args[1], n))
                 else:
                     _bad("membership of %r in %r" % (a.ty, b.ty), n)
             return E(a.pre, "(negb %s)" % txt if neg else txt, "bool")
@@ -1087,8 +1139,8 @@ class FunTr:
 
     def _call(self, n, env, want):
         key = ast.unparse(n.func)
-        if n.keywords and key not in self.mod.calls:
-            _bad("keyword arguments", n)
+        if n.keywords and key not in self.mod.calls and not isinstance(n.func, ast.Attribute):
+            _bad("keyword arguments", n)     # (a method call on a typed receiver: see _kw_slots_method below)
         if key in self.mod.calls:
             alts = self.mod.calls[key]
             alts = alts if isinstance(alts, (list, tuple)) else [alts]
@@ -1153,12 +1205,29 @@ class FunTr:
                     alts = alts if isinstance(alts, (list, tuple)) else [alts]
                     errs = []
                     for cand in alts:
-                        if len(cand.args) != len(n.args) + 1:
+                        m_args = list(n.args)
+                        if n.keywords:
+                            # recv.m(a, name=b): keyword arguments only for a rendering that names its parameters
+                            # (Call.kw, one per entry of args, entry 0 = the receiver); all given, after the positional
+                            # ones and in parameter order — then the textual order is Python's evaluation order
+                            names = cand.kw
+                            if names is None or len(names) != len(cand.args):
+                                errs.append("keyword arguments for a rendering without parameter names")
+                                continue
+                            for k_ in n.keywords:
+                                if k_.arg is None or len(m_args) + 1 >= len(names) or names[len(m_args) + 1] != k_.arg:
+                                    m_args = None
+                                    break
+                                m_args.append(k_.value)
+                            if m_args is None:
+                                errs.append("keyword argument out of parameter order / unknown / parameter left out")
+                                continue
+                        if len(cand.args) != len(m_args) + 1:
                             errs.append("arity")
                             continue
                         try:
-                            es = [recv] + [self._arg(a, env, w, cand, i_ == len(n.args) - 1)
-                                           for i_, (a, w) in enumerate(zip(n.args, cand.args[1:]))]
+                            es = [recv] + [self._arg(a, env, w, cand, i_ == len(m_args) - 1)
+                                           for i_, (a, w) in enumerate(zip(m_args, cand.args[1:]))]
                             texts = [coerce(e.text, e.ty, w, n) for e, w in zip(es, cand.args)]
                         except ExtractError as ex:
                             errs.append(str(ex))
@@ -1170,6 +1239,8 @@ class FunTr:
                             return E(pre + [(t, app)], t, cand.ret)
                         return E(pre, "(%s)" % app, cand.ret)
                     _bad("no rendering of %s fits: %s" % (mkey, "; ".join(errs)), n)
+        if n.keywords:
+            _bad("keyword arguments", n)
         if self._is_map(n):
             # map(F, L) in value position: the lazy map object as the list of its elements — only for a pure F that
             # the spec renders, and only where the object is certainly consumed exactly once (_lazy_map_ok)
@@ -1500,6 +1571,14 @@ class FunTr:
                 return self.block([hk] + list(rest), env, k, ctx)
             if isinstance(t, ast.Attribute) and ast.unparse(t) in self.stattr:
                 t = ast.copy_location(ast.Name(id=self.stattr[ast.unparse(t)], ctx=ast.Store()), t)
+            if isinstance(t, ast.Subscript) and isinstance(t.value, ast.Attribute) and ast.unparse(t.value) in self.stattr \
+                    and isinstance(self.decl.get(self.stattr[ast.unparse(t.value)]), tuple) \
+                    and self.decl[self.stattr[ast.unparse(t.value)]][0] == "coq":
+                # self.attr[k] = v on a state attribute holding an OPAQUE object (METHOD MODE): item assignment on its
+                # state variable ("<type>.__setitem__", as for a method call self.attr.m(..) that changes the object)
+                t = ast.copy_location(ast.Subscript(
+                    value=ast.copy_location(ast.Name(id=self.stattr[ast.unparse(t.value)], ctx=ast.Load()), t.value),
+                    slice=t.slice, ctx=ast.Store()), t)
             sc = self._selfcall(s.value)
             if sc is not None:
                 if not isinstance(t, ast.Name):
@@ -1537,6 +1616,17 @@ class FunTr:
                 return self.swrap(e.pre, "(" + pfx + nxt(env2) + ")") if e.pre else "(" + pfx + nxt(env2) + ")"
             if isinstance(t, ast.Tuple) and all(isinstance(x, ast.Name) for x in t.elts):
                 e = self.expr(s.value, env)
+                if isinstance(e.ty, tuple) and e.ty[0] == "list" and t.elts:
+                    # a, b = <a list>: ValueError unless the list has exactly as many elements as there are names
+                    env2, fresh, lets = dict(env), [], ""
+                    for x in t.elts:
+                        f = self.tmp()
+                        fresh.append(f)
+                        dty = self.declared(x.id, s)
+                        env2[x.id] = dty
+                        lets += "let %s := %s in " % (cname(x.id), coerce(f, e.ty[1], dty, s))
+                    return self.swrap(e.pre, "(match %s with [%s] => %s%s | _ => %s end)" % (
+                        e.text, "; ".join(fresh), lets, nxt(env2), self.err("ValueError")))
                 if not (isinstance(e.ty, tuple) and e.ty[0] == "tuple" and len(e.ty) - 1 == len(t.elts)):
                     _bad("tuple unpacking of %r" % (e.ty,), s)
                 env2 = dict(env)
@@ -1699,6 +1789,8 @@ class FunTr:
         Restrictions (fail closed): no else/finally, no `as` name, no bare except; B contains no return, yield, loop,
         nested try or function, no break/continue, and (re)binds NO local variable — the values of locals at the
         raise point are not carried by `MErr`, so H and what follows see the locals as they were before the try."""
+        if self._is_try_assign(s):
+            return self._try_assign(s, rest, env, k, ctx)
         if not self.method or self.fun.generator:
             _bad("try/except is supported in method mode only", s)
         if s.orelse or s.finalbody or not s.handlers:
@@ -1746,6 +1838,69 @@ class FunTr:
         return "(%smatch %s with MOk _ %s => let '%s := %s in %s | MErr %s %s => let '%s := %s in (match %s with %s| _ => %s end) end)" % (
             pfx, body, stv, self.st_tuple(), stv, kk(env_st), ev, stv, self.st_tuple(), stv, ev, cases,
             "MErr %s %s" % (ev, self.st_tuple()))
+
+    def _is_try_assign(self, s):
+        """try: <one assignment `x = E` to a declared LOCAL name>  except ..: ..  [else: ..]   (no finally)"""
+        return (len(s.body) == 1 and isinstance(s.body[0], ast.Assign) and len(s.body[0].targets) == 1
+                and isinstance(s.body[0].targets[0], ast.Name) and s.body[0].targets[0].id in self.fun.locals
+                and bool(s.handlers) and not s.finalbody)
+
+    def _try_assign(self, s, rest, env, k, ctx):
+        """try: x = E   except (K1, K2): H  …   [else: L]      — in any mode.
+        The try body is ONE assignment of an expression to a local name.  If evaluating E raises, nothing has been
+        bound (x keeps the value it had, if it had one) and nothing else has changed — E is rendered in `result`; a
+        call that changes the object's state inside it fails closed (`wrap`) — so H sees every variable as it was
+        before the try.  If E does not raise, x is bound and the else block L runs; exceptions of L and of H are not
+        handled here.  Handlers are tried in order, by kind: CATCHES as in _try, extended by Module.catches
+        ({class name: (kinds certainly caught, kinds possibly caught)} — the spec author's claim about what a kind stands
+        for in the try bodies of this module, e.g. OtherError = AttributeError); an undecidable kind that reaches a
+        handler ends in OutOfFuel, any other kind propagates.  `as` names, bare except and finally fail closed."""
+        asn = s.body[0]
+        x = asn.targets[0].id
+        table = dict(self.CATCHES)
+        table.update(getattr(self.mod, "catches", None) or {})
+        arms, seen = [], set()
+        for h in s.handlers:
+            if h.type is None or h.name is not None:
+                _bad("bare except / except … as name", h)
+            classes = h.type.elts if isinstance(h.type, ast.Tuple) else [h.type]
+            sure, maybe = [], []
+            for c in classes:
+                cn = ast.unparse(c)
+                if cn not in table:
+                    _bad("except %s: no table of the kinds it catches" % cn, h)
+                sure += [y for y in table[cn][0] if y not in sure]
+                maybe += [y for y in table[cn][1] if y not in maybe]
+            arms.append((h, [y for y in sure if y not in seen], [y for y in maybe if y not in sure and y not in seen]))
+            seen.update(sure)
+            seen.update(maybe)
+        e = self.expr(asn.value, env, self.declared(x, s))
+        m = wrap(e.pre, "Ok %s" % e.text)        # (fails closed on a call that changes the object's state)
+        okv, ev = self.tmp(), self.tmp()
+        pfx_bind, env_else = self.bind(x, E([], okv, e.ty), env, s)
+        after = lambda env2: self.block(rest, env2, k, ctx)   # noqa: E731
+        branches = [(list(h.body), env) for h in s.handlers] + [(list(s.orelse), env_else)]
+        if sum(1 for b_, _ in branches if self.falls_through(b_)) >= 2:
+            asg = [x] + sum((self.assigned(b_) for b_, _ in branches), [])
+            owned = any(self._owned_type(t_) for t_ in self.decl.values())
+            ends = self._probe(branches, ctx) if (self.fun.narrow or self.fun.join_defines or owned) else []
+            narrowed = self._narrowed(ends, asg) if self.fun.narrow else None
+            fresh = tuple(v for v in asg if v not in env and v in self.decl and ends and all(v in e_ for e_ in ends)) \
+                if self.fun.join_defines else ()
+            gone = tuple(v for v in asg if v in env and any(v not in e_ for e_ in ends)) if owned else ()
+            pfx, kk = self.join(env, asg, after, narrowed, fresh, gone)
+        else:
+            pfx, kk = "", after
+        ctx_b = dict(ctx, injoin=True) if pfx else ctx
+        t_else = self.block(list(s.orelse), env_else, kk, ctx_b)
+        cases = ""
+        for h, sure, maybe in arms:
+            if sure:
+                cases += "| %s => %s " % (" | ".join(sure), self.block(list(h.body), env, kk, ctx_b))
+            if maybe:
+                cases += "| %s => %s " % (" | ".join(maybe), self.err("OutOfFuel"))
+        return "(%smatch %s with Ok %s => (%s%s) | Err %s => (match %s with %s| _ => %s end) end)" % (
+            pfx, m, okv, pfx_bind, t_else, ev, ev, cases, self.err(ev))
 
     def _alias_stmt(self, s, rest):
         """`x = self.attr` with Fun.alias_state = {"x": "self.attr"} (METHOD MODE; attr a state attribute): from here on x
@@ -1848,6 +2003,7 @@ class FunTr:
         """[target =] f(args) for a hand-written primitive on the object's state (Call.stateprim)."""
         if not self.method:
             _bad("%s: a primitive on the object's state needs method mode" % ast.unparse(call.func), node)
+        call = self._strip_forwarded(call)      # F(.., *args, **kwargs) handing on opaque arguments (Fun.forwards_varargs)
         if call.keywords or len(call.args) != len(cand.args) or any(isinstance(a, ast.Starred) for a in call.args):
             _bad("arguments of %s" % ast.unparse(call), node)
         es = [self.expr(a, env, w) for a, w in zip(call.args, cand.args)]
@@ -2244,7 +2400,11 @@ class FunTr:
         else:
             # the iterable is evaluated once, eagerly: only faithful if the body does not change what is
             # being iterated over — except `N[i] = v` at the current index of `for i, x in enumerate(N)`
-            names = {m.id for m in ast.walk(s.iter) if isinstance(m, ast.Name)}
+            # (`X.attr` that the spec renders as a CONSTANT, Module.consts — a class-level table reached through self —
+            #  does not depend on X's state: that occurrence of X does not count)
+            in_const = {id(m.value) for m in ast.walk(s.iter) if isinstance(m, ast.Attribute)
+                        and isinstance(m.value, ast.Name) and ast.unparse(m) in self.mod.consts}
+            names = {m.id for m in ast.walk(s.iter) if isinstance(m, ast.Name) and id(m) not in in_const}
             # `X.m(..)` that the spec renders BY ITS SOURCE TEXT "X.m" as a function that does not take X (a
             # classmethod / static helper reached through self): its value does not depend on X's state
             recv_only = {m.func.value.id for m in ast.walk(s.iter)
@@ -2374,10 +2534,48 @@ class FunTr:
                 return False
         return True
 
+    # `*args, **kwargs` that are only handed on -------------------------------------------------------------------
+    def _fwd_names(self):
+        a = self.node.args
+        return [x.arg for x in (a.vararg, a.kwarg) if x is not None]
+
+    def _forwards_only(self):
+        """Fun.forwards_varargs (opt-in) = the source text F of a callee: the function's own `*args` / `**kwargs` are
+        OPAQUE — each name occurs exactly once in the body, as `*args` / `**kwargs` at the end of the arguments of ONE call
+        `F(.., *args, **kwargs)`, which the spec renders by a primitive on the object's state (Call.stateprim) that stands
+        for F's effect whatever arguments were handed on (_strip_forwarded).  Anything else fails closed."""
+        fw = getattr(self.fun, "forwards_varargs", None)
+        if not fw:
+            return False
+        a = self.node.args
+        sites = [m for m in ast.walk(self.node) if isinstance(m, ast.Call) and ast.unparse(m.func) == fw]
+        if len(sites) != 1:
+            return False
+        c = sites[0]
+        ok_star = (a.vararg is None) or (c.args and isinstance(c.args[-1], ast.Starred)
+                                          and isinstance(c.args[-1].value, ast.Name) and c.args[-1].value.id == a.vararg.arg)
+        ok_kw = (a.kwarg is None) or (c.keywords and c.keywords[-1].arg is None
+                                      and isinstance(c.keywords[-1].value, ast.Name) and c.keywords[-1].value.id == a.kwarg.arg)
+        uses = [m for m in ast.walk(self.node) if isinstance(m, ast.Name) and m.id in self._fwd_names()]
+        return bool(ok_star and ok_kw and len(uses) == len(self._fwd_names()))
+
+    def _strip_forwarded(self, call):
+        """The call F(.., *args, **kwargs) of _forwards_only without the forwarded `*args` / `**kwargs`."""
+        if not (getattr(self.fun, "forwards_varargs", None) and self._fwd_names()
+                and ast.unparse(call.func) == self.fun.forwards_varargs and self._forwards_only()):
+            return call
+        a = self.node.args
+        args, kws = list(call.args), list(call.keywords)
+        if a.vararg is not None:
+            args.pop()
+        if a.kwarg is not None:
+            kws.pop()
+        return ast.copy_location(ast.Call(func=call.func, args=args, keywords=kws), call)
+
     # ------------------------------------------------------------------
     def translate(self):
         a = self.node.args
-        if a.vararg or a.kwarg or a.kwonlyargs or a.posonlyargs:
+        if a.kwonlyargs or a.posonlyargs or ((a.vararg or a.kwarg) and not self._forwards_only()):
             _bad("unsupported parameter kinds in %s" % self.fun.qual, self.node)
         # aliasing: `x = y` between mutable lists of which one is later mutated in place cannot be rendered by values
         mutated = set()
